@@ -198,7 +198,7 @@ func genTest(rt *rapid.T, tests ...string) string {
 }
 
 func style(rt *rapid.T, c *Case) {
-	c.Style = rapid.IntRange(0, 2).Draw(rt, "style")
+	c.Style = rapid.IntRange(0, 5).Draw(rt, "style")
 	c.Rot = rapid.IntRange(0, 5).Draw(rt, "rot")
 }
 
@@ -645,7 +645,7 @@ func enumItem(fns []string, seqs func(func([]int) bool) bool, nItems int, yield 
 							for _, pred := range preds {
 								for _, cnt := range counts {
 									for _, fe := range fes {
-										c := Case{Fn: fn, Kind: kind, Seq: seq, Key: key, Test: test, Pred: pred, Start: st, End: en, Count: cnt, FromEnd: fe, New: 4}
+										c := Case{Fn: fn, Kind: kind, Seq: seq, Key: key, Test: test, Pred: pred, Start: st, End: en, Count: cnt, FromEnd: fe, New: 4, Style: (len(seq) + len(st) + len(cnt)) % 6}
 										// items: the key of every alphabet symbol and one above
 										for v := 0; v < nItems; v++ {
 											if pred == "even" && v > 0 {
